@@ -76,6 +76,7 @@ def main():
     ap.add_argument("--keep", action="store_true")
     ap.add_argument("--only", default=None, help="glob on cell ids (debugging; evidence marks the run partial)")
     ap.add_argument("--no-evidence", action="store_true")
+    ap.add_argument("-v", "--verbose", action="store_true")
     args = ap.parse_args()
     pid = args.prop
     seed = int(os.environ.get("VERIF_SEED", "0") or 0)
@@ -227,6 +228,10 @@ def run(pid, spec, args, seed, t0, outdir, scratch):
              sum(1 for r in results if r["status"] == "undecided"),
              ev["coverage"]["obligations"], ev["coverage"]["discharged"],
              ev["coverage"].get("bounded_obligations", 0), time.time() - t0))
+    if args.verbose:
+        for r in results:
+            print("  %-45s %-9s %-7s %6.1fs ob=%d %s" % (r["cell"], r["status"], r.get("backend"), r.get("wall_s") or 0, r.get("obligations", 0),
+                  ",".join(f["property"] for f in r.get("failed", [])[:6])))
     for u in undecided:
         print("UNDECIDED: %s" % u[:600])
     for l in vlines:
@@ -310,6 +315,7 @@ def write_evidence(pid, spec, args, seed, t0, results, static_facts, undecided, 
         os.makedirs(os.path.join(VERIF, "evidence"), exist_ok=True)
         with open(os.path.join(VERIF, "evidence", pid + ".json"), "w") as f:
             json.dump(ev, f, indent=1, sort_keys=False)
+    if True:
         # full per-cell detail (commands, all obligations) next to the replay files
         detail = []
         for r in results:
